@@ -51,6 +51,7 @@ func verifEngine(e *Engine, ev string) {
 }
 
 func verifWrapWaitDone(pool string, onWaitDone func()) func() {
+	verifTracePoolNew(pool, onWaitDone != nil)
 	if onWaitDone == nil || VerifSink == nil {
 		return onWaitDone
 	}
